@@ -188,7 +188,8 @@ fn subset_simple_glyph(g: &SimpleGlyph, plan: &Plan) -> Vec<u8> {
     let Some(num_coords) = g.end_pts_of_contours().last() else {
         return out;
     };
-    let num_coords = num_coords.get() + 1;
+    // the last end point may be 0xFFFF, so the point count does not fit in u16
+    let num_coords = num_coords.get() as usize + 1;
     let glyph_data = g.glyph_data();
     let i = trim_simple_glyph_padding(glyph_data, num_coords);
     if i == 0 {
@@ -315,10 +316,9 @@ fn subset_composite_glyph(g: &CompositeGlyph, plan: &Plan) -> Vec<u8> {
 }
 
 // trim padding bytes for simple glyphs, return trimmed length of the raw data for flags & x/y coordinates
-fn trim_simple_glyph_padding(glyph_data: &[u8], num_coords: u16) -> usize {
+fn trim_simple_glyph_padding(glyph_data: &[u8], num_coords: usize) -> usize {
     let mut coord_bytes: usize = 0;
     let mut coords_with_flags: usize = 0;
-    let num_coords = num_coords as usize;
     let length = glyph_data.len();
     let mut i: usize = 0;
     while i < length {
